@@ -118,7 +118,28 @@ fn run_case(args: &Args, run: u64, seed: u64, w: &mut CaseWriter, jsonl: &mut st
         let v1 = version_of(&sys, "b");
         let visible = sys.ca("b").map(|ca| serde_json::to_value(&*ca).unwrap()["routes"]["map"].as_object().map(|m| m.keys().any(|k| k.ends_with("=> 64999"))).unwrap_or(false)).unwrap_or(false);
         if hit && (r.is_ok() || n1 != n0 || v1 != n0 || visible) { atomic_ok = false; }
-        phase0 = json!({"listener_failure_injected": hit, "call_failed": r.is_err(), "commands_before": n0, "commands_after": n1, "version_seen_by_readers": v1, "change_visible": visible});
+        // The same with a STALE cache: a second instance on the same storage (file locks make that legal on the
+        // disk back-end) stores a command this instance has not seen; this instance then catches up inside the
+        // command whose listener fails.
+        let other = Sys::open(opts.clone());
+        let other_ok = other.routes_update("b", &["10.0.78.0/24 => 64998"], &[]).is_ok();
+        drop(other);
+        let m0 = count(&sys);
+        let fail2 = Arc::new(FailOnce { armed: AtomicBool::new(true), hit: AtomicBool::new(false) });
+        set_probe(Some(fail2.clone()));
+        let r2 = sys.routes_update("b", &["10.0.79.0/24 => 64997"], &[]);
+        set_probe(None);
+        let hit2 = fail2.hit.load(Ordering::SeqCst);
+        let m1 = count(&sys);
+        let w1 = version_of(&sys, "b");
+        let keys_of = |sys: &Sys| -> Vec<String> { sys.ca("b").map(|ca| serde_json::to_value(&*ca).unwrap()["routes"]["map"].as_object().map(|m| m.keys().cloned().collect()).unwrap_or_default()).unwrap_or_default() };
+        let ks = keys_of(&sys);
+        let visible2 = ks.iter().any(|k| k.ends_with("=> 64997"));
+        let caught_up = ks.iter().any(|k| k.ends_with("=> 64998"));
+        if hit2 && (r2.is_ok() || m1 != m0 || w1 != m0 || visible2 || (other_ok && !caught_up)) { atomic_ok = false; }
+        phase0 = json!({"cold": {"listener_failure_injected": hit, "call_failed": r.is_err(), "commands_before": n0, "commands_after": n1, "version_seen_by_readers": v1, "change_visible": visible},
+                        "stale": {"other_instance_command_stored": other_ok, "listener_failure_injected": hit2, "call_failed": r2.is_err(), "commands_before": m0, "commands_after": m1,
+                                  "version_seen_by_readers": w1, "change_visible": visible2, "other_instance_command_visible": caught_up}});
         sys
     } else { sys };
     let rec = Arc::new(Recorder { events: Mutex::new(Vec::new()), threads: Mutex::new(HashMap::new()), jitter: AtomicU64::new(seed), on: AtomicBool::new(true) });
